@@ -46,6 +46,7 @@ ImplDesigned ==
       emptyMutateWithGraphs |-> FALSE,  \* F11: empty mutate message per tick once relation graphs exist
       refBeforeSpawnUnmarked|-> FALSE,  \* F8: entity first seen as a reference never gets the marker
       clientLinkedDespawn   |-> FALSE,  \* F17: a despawn on the client takes the client-side children along, replicated or not
+      mapOrphansPlaceholder |-> FALSE,  \* F24: a mapping for a server entity the client knows as a placeholder leaves the placeholder behind; references keep pointing to it
       seedLeakHidden        |-> FALSE,  \* seeded defect (no finding): hidden entities are not filtered from changes
       seedIgnoreMapping     |-> FALSE,  \* seeded: the client ignores entity mappings (a second entity is spawned)
       seedEvNoQueue         |-> FALSE,  \* seeded: the client hands dependent events to game logic without waiting for their tick
@@ -522,10 +523,20 @@ NewEnt(tick, marker) == [alive |-> TRUE, marker |-> marker, comps |-> EmptyFn, h
 
 \* mappings are applied before anything else in the message: a live pre-spawned entity is adopted
 \* (marker inserted, no confirm history yet), a dead one is ignored and a fresh entity is spawned later
+\* ("?": a reference to a client entity that no server entity maps to any more)
+Orphan == "?"
 ApplyMappings(cs, m) ==
     LET one(ents, mp) ==
             IF Get(cs.pre, mp[2], FALSE)
-            THEN With(ents, mp[1], [alive |-> TRUE, marker |-> TRUE, comps |-> EmptyFn, hist |-> -1, pre |-> mp[2]])
+            THEN LET known == mp[1] \in DOMAIN ents
+                     \* as found (F24): the entity reserved earlier for references to mp[1] is left behind and the
+                     \* components that referenced it keep pointing to it
+                     e1 == IF Impl.mapOrphansPlaceholder /\ known
+                           THEN [x \in DOMAIN ents |->
+                                   IF REL \in DOMAIN ents[x].comps /\ ents[x].comps[REL] = mp[1]
+                                   THEN [ents[x] EXCEPT !.comps[REL] = Orphan] ELSE ents[x]]
+                           ELSE ents
+                 IN With(e1, mp[1], [alive |-> TRUE, marker |-> TRUE, comps |-> EmptyFn, hist |-> -1, pre |-> mp[2]])
             ELSE ents
     IN IF Impl.seedIgnoreMapping THEN cs ELSE [cs EXCEPT !.ents = FoldSet(one, @, m.maps)]
 
@@ -537,12 +548,13 @@ CliAncestors(ents, e, seen) ==
 Dead(ent) == [ent EXCEPT !.alive = FALSE, !.marker = FALSE, !.comps = EmptyFn, !.hist = -1]
 
 ApplyDespawns(cs, m) ==
-    LET gone == {cs.ents[e].pre : e \in (DOMAIN m.desp) \cap (DOMAIN cs.ents)} \ {None}
-        killed == {e \in (DOMAIN m.desp) \cap (DOMAIN cs.ents) : cs.ents[e].alive}
+    LET killed == {e \in (DOMAIN m.desp) \cap (DOMAIN cs.ents) : cs.ents[e].alive}
         \* Bevy's linked despawn on the client: everything below a despawned entity dies with it; the map
         \* entry of such an entity stays until its own despawn record is processed (F17 when there is none)
         below == IF Impl.clientLinkedDespawn
                  THEN {d \in DOMAIN cs.ents : CliAncestors(cs.ents, d, {}) \cap killed # {}} ELSE {}
+        \* pre-spawned client entities that cease to exist: adopted ones that are despawned, directly or along
+        gone == {cs.ents[e].pre : e \in ((DOMAIN m.desp) \cap (DOMAIN cs.ents)) \cup below} \ {None}
     IN [cs EXCEPT !.ents = [e \in (DOMAIN @) \ (DOMAIN m.desp) |-> IF e \in below THEN Dead(@[e]) ELSE @[e]],
                   !.pre = [p \in DOMAIN @ |-> IF p \in gone THEN FALSE ELSE @[p]]]
 
